@@ -64,6 +64,7 @@ CONSTANTS
   SSizes,      \* stream sizes
   Filts,       \* subset of {"none", "client", "server"}
   Ops,         \* subset of {"pub", "rem", "exp", "sexp", "clear", "refresh", "poscheck"}
+  MaxJumps,    \* out-of-order client moves per subscription attempt (0 = canonical order only)
   Pres,        \* numbers of environment operations allowed before the client starts ({MaxOps} = no restriction;
                \* smaller values make -simulate place more operations inside the protocol)
   N0s,         \* numbers of keys already published when the behaviour starts (keys 1..n0, one publish each)
@@ -107,7 +108,9 @@ NoSrv == [has |-> FALSE, off |-> 0, ep |-> 0, ssc |-> FALSE, ss |-> 0]
 NoRd == [pubs |-> <<>>, eff |-> P0, pos |-> P0, cur |-> 0, err |-> FALSE, orig |-> FALSE]
 NoTr == [since |-> P0, spubs |-> <<>>, sl |-> FALSE, isrec |-> FALSE, recov |-> FALSE, csr |-> FALSE]
 NoSub == [st |-> "none", pos |-> 0, ep |-> 0, csr |-> FALSE]
-FreshCl == [ph |-> "state", map |-> [k \in Keys |-> 0], off |-> 0, ep |-> 0, cur |-> 0, first |-> TRUE, rec |-> FALSE]
+\* full: the client has seen every state page (or held the state before); jumps: out-of-order moves made so far
+FreshCl == [ph |-> "state", map |-> [k \in Keys |-> 0], off |-> 0, ep |-> 0, cur |-> 0, first |-> TRUE, rec |-> FALSE,
+            full |-> FALSE, jumps |-> 0]
 
 HasStream == cfg.mode # "eph"
 \* the tags of a key are fixed per behaviour (a publication of key k carries tag ktag[k]); the filter keeps "keep"
@@ -159,10 +162,11 @@ Client(c, f) ==
                              !.off = IF c.first THEN f.off ELSE c.off,
                              !.ep  = IF c.first THEN f.ep ELSE c.ep,
                              !.first = FALSE]
-         IN IF f.cur # 0 THEN [c1 EXCEPT !.cur = f.cur] ELSE [c1 EXCEPT !.cur = 0, !.ph = "stream"]
+         IN IF f.cur # 0 THEN [c1 EXCEPT !.cur = f.cur] ELSE [c1 EXCEPT !.cur = 0, !.ph = "stream", !.full = TRUE]
     [] f.t = "stream" -> [c EXCEPT !.map = ApplyPubs(c.map, f.pubs, c.off), !.off = f.off]
     [] f.t = "live" -> [c EXCEPT !.map = ApplyPubs(ApplyEnts(c.map, f.ents), f.pubs, c.off),
-                                 !.off = f.off, !.ep = f.ep, !.ph = "live", !.first = FALSE, !.cur = 0]
+                                 !.off = f.off, !.ep = f.ep, !.ph = "live", !.first = FALSE, !.cur = 0,
+                                 !.full = c.full \/ c.ph = "state"]     \* a STATE request answered LIVE was the last page
     [] f.t = "pub" -> IF c.ph # "live" THEN c      \* a push outside an established subscription is ignored
                       ELSE [c EXCEPT !.map = ApplyPubs(c.map, <<f>>, c.off), !.off = IF f.off > c.off THEN f.off ELSE c.off]
     [] f.t \in {"err", "unsub"} -> [c EXCEPT !.ph = "told"]
@@ -387,7 +391,8 @@ StreamDecide ==
 \* LIVE phase command with a saved position: direct recovery join
 JoinCmd ==
   /\ pc = "idle" /\ cl.ph = "join"
-  /\ BeginTransition(StreamToLive(TRUE))
+  \* the LIVE request carries recover = true; with a reservation the command is a continuation (no OnSubscribe)
+  /\ BeginTransition([StreamToLive(~srv.has) EXCEPT !.recov = TRUE])
   /\ UNCHANGED <<state, top, win, epoch, log, wire, nops, cfg, sub, rd, cl, resubs, sfnow, refreshed, hz, out>>
   /\ step' = [act |-> "JoinCmd"]
 
@@ -430,7 +435,7 @@ TransFinish ==
             /\ sub' = [st |-> "live", pos |-> 0, ep |-> tr.since.ep, csr |-> tr.csr]
             /\ srv' = NoSrv /\ buf' = <<>> /\ pc' = "rp" /\ UNCHANGED hub
             /\ Emit([t |-> "live", ents |-> ProtoEnts(tr.spubs), pubs |-> ProtoPubs(Visible(buf)),
-                     off |-> 0, ep |-> tr.since.ep, rec |-> FALSE])
+                     off |-> 0, ep |-> tr.since.ep, rec |-> tr.isrec /\ tr.recov])
   /\ rd' = NoRd /\ tr' = NoTr
   /\ UNCHANGED <<state, top, win, epoch, log, wire, nops, cfg, resubs, sfnow, refreshed, hz>>
   /\ step' = [act |-> "TransFinish"]
@@ -450,9 +455,21 @@ Snapshot ==
   /\ cl.ph = "init" /\ pc = "idle" /\ wire = <<>> /\ HasStream
   /\ cl' = [cl EXCEPT !.ph = IF cfg.kind = "rlive" THEN "join" ELSE "stream",
                       !.map = [k \in Keys |-> IF Filtered(k) THEN 0 ELSE state[k].id],
-                      !.off = top, !.ep = epoch, !.first = FALSE, !.rec = TRUE]
+                      !.off = top, !.ep = epoch, !.first = FALSE, !.rec = TRUE, !.full = TRUE]
   /\ UNCHANGED <<state, top, win, epoch, log, wire, nops, cfg, pc, hub, buf, sub, srv, rd, tr, resubs, sfnow, refreshed, hz, out>>
   /\ step' = [act |-> "Snapshot"]
+
+\* The code accepts, for one reservation (mapSubscribing entry), any order of continuation commands: a STREAM or LIVE
+\* request while state pages are still pending, a LIVE request ("paginated join", recover) from any page's position, a
+\* STATE page (cursor) after STREAM pages.  The client may leave the canonical order STATE* -> STREAM* -> LIVE:
+Jump(to) ==
+  /\ pc = "idle" /\ srv.has /\ ~cl.first /\ cl.jumps < MaxJumps
+  /\ \/ to = "stream" /\ cl.ph = "state" /\ HasStream
+     \/ to = "join" /\ cl.ph \in {"state", "stream"}
+     \/ to = "state" /\ cl.ph = "stream" /\ cl.cur # 0
+  /\ cl' = [cl EXCEPT !.ph = to, !.jumps = @ + 1]
+  /\ UNCHANGED <<state, top, win, epoch, log, wire, nops, cfg, pc, hub, buf, sub, srv, rd, tr, resubs, sfnow, refreshed, hz, out>>
+  /\ step' = [act |-> "Jump", to |-> to]
 
 \* told unrecoverable / insufficient / invalidated: drop everything and subscribe from scratch
 Resub ==
@@ -495,6 +512,7 @@ Next ==
   \/ Deliver \/ DeliverBlocked \/ PosCheck
   \/ StateCmd \/ StateLast \/ StateDecide \/ StreamCmd \/ StreamDecide \/ JoinCmd \/ TransRead \/ TransFinish \/ TransStop
   \/ Snapshot \/ Resub
+  \/ \E t \in {"stream", "join", "state"} : Jump(t)
   \/ \E c \in BOOLEAN : SubRefresh(c)
 
 Spec == Init /\ [][Next]_vars
@@ -515,7 +533,9 @@ Quiescent == /\ pc = "idle" /\ wire = <<>>
 \* is the stream top.
 PosValid == HasStream => sub.ep = epoch
 
-C22 == (Quiescent /\ cl.ph = "live" /\ PosValid) => (Converged /\ (HasStream => sub.pos = top))
+\* (a client that went live without having seen every state page - a jump to LIVE or STREAM while pages were pending,
+\* which the code accepts - does not follow the protocol: only the filter and recovery monitors apply to it)
+C22 == (Quiescent /\ cl.ph = "live" /\ PosValid /\ cl.full) => (Converged /\ (HasStream => sub.pos = top))
 \* what TLC proves about the code AS IT IS: convergence outside the unprotected windows recorded in hz
 C22Coded == C22 \/ hz # {}
 
